@@ -56,15 +56,14 @@ structure St where
   working : Option Working := none
   err : Option Err := none
 
-/-- `Reader.header`: split at the first space or tab -/
-def header (cfg : Cfg) (line : Bytes) : Except Panic (Working × Option Err) :=
+/-- `Reader.header`: the prefix is cut off, the rest is split at the first space or tab -/
+def header (cfg : Cfg) (line : Bytes) : Except Panic (Working × Option Err) := do
   -- s := r.t.Clone().(seqio.SequenceAppender)      (empty template)
+  let line ← sliceFrom line cfg.idPrefix.length             -- line = line[len(r.IDPrefix):]
   match indexAnySpTab line with
-  | none => do
-    let name ← sliceFrom line cfg.idPrefix.length           -- line[len(r.IDPrefix):]
-    pure ({ name := name, desc := [], letters := #[] }, none)
+  | none => pure ({ name := line, desc := [], letters := #[] }, none)     -- string(line)
   | some fieldMark => do
-    let name ← slice line cfg.idPrefix.length fieldMark      -- line[len(r.IDPrefix):fieldMark]
+    let name ← slice line 0 fieldMark                        -- line[:fieldMark]
     let desc ← sliceFrom line (fieldMark + 1)               -- line[fieldMark+1:]
     pure ({ name := name, desc := desc, letters := #[] }, none)
 
